@@ -45,6 +45,10 @@ var universe = []sdk.Msg{
 	&stakingtypes.MsgDelegate{},
 	&crosschaintypes.MsgSendToExternal{},
 	&crosschaintypes.MsgClaim{},
+	// type URLs of which another registered type's URL is a strict extension: an exemption is by EXACT type URL
+	&govv1.MsgVoteWeighted{},           // "/cosmos.gov.v1.MsgVote" + "Weighted"
+	&crosschaintypes.MsgConfirm{},      // "/fx.gravity.crosschain.v1.MsgConfirm"
+	&crosschaintypes.MsgConfirmBatch{}, // … + "Batch"
 }
 
 var denoms = []string{"aaa", "bbb", "ccc", "ddd"}
